@@ -752,7 +752,88 @@ def r9_motion_params(repo: Repo, rep):
                             rep.undecided(R, fi.site(e.node), fi.fq, "replication layout of the motion parameters recognisable", f"{dump(c.func)}({dump(a)[:80]})")
 
 
+def r10_source_data(repo: Repo, rep):
+    R = rep.rule("R-C02-10", "sampling never replaces the data a sampler was constructed with by a value that depends on the call's parameters "
+                 "(device moves of the same data are the only rewrites)", floor=20,
+                 why="a sampler whose stored points were replicated for one call returns k times the rows in the next call (and len() no longer tells the count)")
+    for ci, fi in _sampler_funcs(repo):
+        if fi.name != "sample_points" and not fi.name.startswith("_sample"):
+            continue
+        init = repo.resolve_method(ci, "__init__")
+        config = set()
+        if init is not None:
+            ps = set(init.params[1:])
+            for n in ast.walk(init.node):
+                if isinstance(n, ast.Assign):
+                    for t in n.targets:
+                        if isinstance(t, ast.Attribute) and isinstance(t.value, ast.Name) and t.value.id == "self" \
+                                and any(isinstance(x, ast.Name) and x.id in ps for x in ast.walk(n.value)):
+                            config.add(t.attr)
+        rep.saw(fi)
+        bad = []
+        pn = [p for p in fi.params[1:] if p == "params"]
+        for p in paths(fi.node):
+            for e in p.events:
+                if e.kind in ("attr", "aug") and e.target is not None and isinstance(e.target, ast.Attribute) and dump(e.target.value) == "self" and e.target.attr in config:
+                    dep = e.value is not None and any(isinstance(x, ast.Name) and x.id in pn for x in ast.walk(e.value))
+                    if dep or e.kind == "aug":
+                        bad.append(f"self.{e.target.attr} = {dump(e.value)[:60]}")
+        bad = sorted(set(bad))
+        rep.check(R, not bad, fi.site(), fi.fq, "constructor data is not rewritten from the call's parameters", str(bad[:2]), str(bad[:2]))
+
+
+def r11_topped_up_count(repo: Repo, rep):
+    R = rep.rule("R-C02-11", "a primitive sampler that tops its result up with `while len(points) < n` also bounds it from above: the returned rows are cut to n "
+                 "or returned under the test that there are not more than n", floor=1,
+                 why="filtered contributions can add up to more than n (shares of triangles that leave the polygon); the top-up loop only guarantees at least n")
+    dom = repo.cls("problem.domains.domain.Domain")
+    for ci in repo.subclasses(dom, strict=True):
+        fi = ci.methods.get("sample_random_uniform")
+        if fi is None:
+            continue
+        # helpers of the class reachable from the sampler that contain a lower-bound loop on a length
+        topup = []
+        seen, work = set(), [fi]
+        while work:
+            f = work.pop()
+            if f.fq in seen:
+                continue
+            seen.add(f.fq)
+            for n in ast.walk(f.node):
+                if isinstance(n, ast.While) and isinstance(n.test, ast.Compare) and len(n.test.ops) == 1 and isinstance(n.test.ops[0], ast.Lt) \
+                        and isinstance(n.test.left, ast.Call) and attr_chain(n.test.left.func) == "len":
+                    topup.append((f, n))
+                if isinstance(n, ast.Call) and isinstance(n.func, ast.Attribute) and attr_chain(n.func.value) == "self":
+                    g = repo.resolve_method(ci, n.func.attr)
+                    if g is not None and g.cls is not None and g.cls.name not in ("Domain", "BoundaryDomain"):
+                        work.append(g)
+        if not topup:
+            continue
+        rep.saw(fi)
+        for p in paths(fi.node):
+            if p.ret is RAISE or p.ret is None:
+                continue
+            r = p.ret
+            T = r.args[0] if isinstance(r, ast.Call) and attr_chain(r.func) == "Points" and r.args else r
+            cut = isinstance(T, ast.Subscript) and any(isinstance(x, ast.Slice) and x.upper is not None and x.lower is None for x in ast.walk(T.slice))
+            bounded = False
+            for g, pol, kind in p.guards:
+                if kind != "if" or not (isinstance(g, ast.Compare) and len(g.ops) == 1 and isinstance(g.left, ast.Call) and attr_chain(g.left.func) == "len" and g.left.args):
+                    continue
+                if dump(g.left.args[0]) != dump(T):
+                    continue
+                op = g.ops[0]
+                if (isinstance(op, ast.Gt) and not pol) or (isinstance(op, (ast.LtE, ast.Eq)) and pol):
+                    bounded = True
+            rep.check(R, cut or bounded, fi.site(p.ret_node), fi.fq, "returned rows cut to n, or returned under `len(rows) <= n`", f"returns {dump(T)[:90]} with neither", f"unbounded {dump(T)[:60]}")
+            break_after = False
+        for f, n in topup:
+            rep.saw(f)
+
+
 def run(repo: Repo, rep):
+    r10_source_data(repo, rep)
+    r11_topped_up_count(repo, rep)
     from .c15 import r2_adaptive  # adaptive samplers replace rows in place under one mask: the row <-> parameter-row blocks stay where they are
     r2_adaptive(repo, rep)
     r9_motion_params(repo, rep)
